@@ -30,6 +30,18 @@ let run line =
                (match Model.serialize_rtr p with Model.Ok b -> hx b | Model.Panic -> "PANIC" | _ -> "serr") else "skip" in
            "ok " ^ show_pdu p ^ " " ^ re
        | Model.Err _ -> "err" | Model.Panic -> "panic" | Model.OutOfFuel -> "fuel")
+  | ["rtrnew"; v6; pl; ml; asn; fl] ->
+      let zi x = N.z_of_string x in
+      let prefix = if v6 = "1" then List.map N.z_of_int [0x20;0x01;0x0d;0xb8;0;0;0;0;0;0;0;0;0;0;0;1] else List.map N.z_of_int [10;1;2;3] in
+      (match Model.new_pfx (v6 = "1") prefix (zi pl) (zi ml) (zi asn) (zi fl) with
+       | None -> "nil"
+       | Some p ->
+           (match Model.serialize_rtr p with
+            | Model.Ok b ->
+                (match Model.parse_rtr b with
+                 | Model.Ok q -> "ok " ^ show_pdu q ^ " " ^ hx b
+                 | Model.Err _ -> "err" | _ -> "PANIC")
+            | _ -> "serr"))
   | ["bfd"; h] ->
       (match Model.bfd_unmarshal (unhex h) with
        | Model.Ok b ->
